@@ -8,6 +8,7 @@ import (
 	"fmt"
 	"os"
 	"path/filepath"
+	"sort"
 	"strings"
 	"testing"
 
@@ -39,14 +40,17 @@ type KeyRow struct {
 	Cfg struct {
 		Doms []string `json:"doms"`
 		Sub  bool     `json:"sub"`
+		// naming of the key directory's files: Tpl is the model's class, the rest is harness-only data
+		// (keynames_test.go); absent in old replay files = {domain}.key, first name set, one instance
+		Tpl   string `json:"tpl"`
+		Spell string `json:"spell"`
+		Names int    `json:"names"`
+		Sel2  bool   `json:"sel2"`
 	} `json:"cfg"`
 	Hist []KeyStep `json:"hist"`
 }
 
-var domName = map[string]string{"top": "example.org", "second": "strasse.example.net", "sub": "news.example.org",
-	"other": "other.example", "fold": "stra\u00dfe.example.net"}
-
-func domClass(d string) string {
+func domClass(domName map[string]string, d string) string {
 	if u, err := idna.ToUnicode(d); err == nil {
 		d = u
 	}
@@ -58,12 +62,12 @@ func domClass(d string) string {
 	return "other"
 }
 
-func senderAddr(class string) string {
+func senderAddr(domName map[string]string, class string) string {
 	switch class {
 	case "null":
 		return ""
 	case "upper":
-		return "Sender@EXAMPLE.ORG"
+		return "Sender@" + strings.ToUpper(domName["top"])
 	}
 	return "sender@" + domName[class]
 }
@@ -74,24 +78,32 @@ func runKeys(t *testing.T, e *env, r KeyRow, tr *vtrace.Tracer) {
 		t.Fatal(err)
 	}
 	defer os.RemoveAll(kdir)
+	if r.Cfg.Names < 0 || r.Cfg.Names >= len(nameSets) {
+		t.Fatalf("row %d: unknown name set %d", r.ID, r.Cfg.Names)
+	}
+	domName := nameSets[r.Cfg.Names]
+	tpl, spell := r.Cfg.Tpl, r.Cfg.Spell
+	if spell == "" {
+		spell = "{domain}.key"
+	}
+	if tpl == "" {
+		tpl = "key"
+	}
+	if (tpl == "key") != strings.HasSuffix(spell, ".key") {
+		t.Fatalf("row %d: template %q is not of naming class %q", r.ID, spell, tpl)
+	}
 	var doms []string
 	for _, d := range r.Cfg.Doms {
 		doms = append(doms, domName[d])
 	}
-	tr.Emit("Cfg", vtrace.Ev{"doms": r.Cfg.Doms, "sub": r.Cfg.Sub, "row": r.ID})
-	// the zone: <selector>._domainkey.<domain> -> content of <domain>.dns, nothing else
-	zone := func(name string) (string, bool) {
-		name = strings.ToLower(strings.TrimSuffix(name, "."))
-		const pfx = "sel._domainkey."
-		if !strings.HasPrefix(name, pfx) {
-			return "", false
-		}
-		b, err := os.ReadFile(filepath.Join(kdir, name[len(pfx):]+".dns"))
-		if err != nil {
-			return "", false
-		}
-		return string(b), true
+	tr.Emit("Cfg", vtrace.Ev{"doms": r.Cfg.Doms, "sub": r.Cfg.Sub, "tpl": tpl, "spell": spell, "names": r.Cfg.Names,
+		"sel2": r.Cfg.Sel2, "row": r.ID})
+	// the zone: <selector>._domainkey.<domain> -> content of the record file maddy left for that key, nothing else
+	pub := newPublication()
+	for _, d := range doms {
+		pub.doc["sel._domainkey."+d] = documentedRecordFile(keyFile(kdir, spell, d, "sel"))
 	}
+	zone := pub.lookup
 	var m *moddkim.Modifier
 	msgNo := 0
 	for _, st := range r.Hist {
@@ -105,26 +117,56 @@ func runKeys(t *testing.T, e *env, r KeyRow, tr *vtrace.Tracer) {
 			if r.Cfg.Sub {
 				sub = "yes"
 			}
-			err = mod.(*moddkim.Modifier).Init(config.NewMap(nil, config.Node{Children: []config.Node{
-				{Name: "domains", Args: doms},
-				{Name: "selector", Args: []string{"sel"}},
-				{Name: "key_path", Args: []string{filepath.Join(kdir, "{domain}.key")}},
-				{Name: "newkey_algo", Args: []string{st.Algo}},
-				{Name: "sign_subdomains", Args: []string{sub}},
-			}}))
+			initMod := func(mod module.Module, selector, algo string) error {
+				return mod.(*moddkim.Modifier).Init(config.NewMap(nil, config.Node{Children: []config.Node{
+					{Name: "domains", Args: doms},
+					{Name: "selector", Args: []string{selector}},
+					{Name: "key_path", Args: []string{filepath.Join(kdir, spell)}},
+					{Name: "newkey_algo", Args: []string{algo}},
+					{Name: "sign_subdomains", Args: []string{sub}},
+				}}))
+			}
+			err2 := error(nil)
+			lines := captureLog(func() {
+				err = initMod(mod, "sel", st.Algo)
+				if err == nil && r.Cfg.Sel2 {
+					// the second instance of a dual-signing set-up: other selector, other key type, same
+					// directory; it signs nothing here, its files must leave the first instance's alone
+					algo2 := "ed25519"
+					if st.Algo == "ed25519" {
+						algo2 = "rsa2048"
+					}
+					var mod2 module.Module
+					if mod2, err2 = moddkim.New("modify.dkim", "verif_dkim2", nil, nil); err2 == nil {
+						err2 = initMod(mod2, "sel2", algo2)
+					}
+				}
+			})
+			if err2 != nil {
+				t.Fatalf("second modify.dkim instance: %v", err2)
+			}
+			pub.learn(lines)
 			if err == nil {
 				m = mod.(*moddkim.Modifier)
 			}
-			tr.Emit("Start", vtrace.Ev{"algo": st.Algo, "ok": err == nil, "err": fmt.Sprint(err)})
+			var told []string // (a string: for the reader of the evidence only)
+			for k, v := range pub.told {
+				if rel, rerr := filepath.Rel(kdir, v); rerr == nil {
+					v = rel
+				}
+				told = append(told, k+" <- "+v)
+			}
+			sort.Strings(told)
+			tr.Emit("Start", vtrace.Ev{"algo": st.Algo, "ok": err == nil, "err": fmt.Sprint(err), "told": strings.Join(told, "; ")})
 		case "RemoveKey":
-			err := os.Remove(filepath.Join(kdir, domName[st.Dom]+".key"))
+			err := os.Remove(keyFile(kdir, spell, domName[st.Dom], "sel"))
 			if err != nil {
 				t.Fatalf("history removes a key that does not exist: %v", err)
 			}
 			tr.Emit("RemoveKey", vtrace.Ev{"dom": st.Dom})
 		case "Sign":
 			msgNo++
-			from := senderAddr(st.Sender)
+			from := senderAddr(domName, st.Sender)
 			hdr := textproto.Header{}
 			hdr.Add("Subject", fmt.Sprintf("key history %d/%d", r.ID, msgNo))
 			hdr.Add("To", "<rcpt@nexthop.example>")
@@ -164,7 +206,7 @@ func runKeys(t *testing.T, e *env, r KeyRow, tr *vtrace.Tracer) {
 			if bytes.Contains(got[:bytes.Index(got, []byte("\r\n\r\n"))+2], []byte("DKIM-Signature:")) {
 				ev["signed"] = true
 				d, ierr := VerifyZone(got, zone)
-				ev["d"] = domClass(d)
+				ev["d"] = domClass(domName, d)
 				var lerr error
 				vs, err := dkim.VerifyWithOptions(bytes.NewReader(got), &dkim.VerifyOptions{
 					LookupTXT: func(name string) ([]string, error) {
